@@ -7,7 +7,7 @@ from ..astutil import attr_path, call_name, walk, src
 from ..cfg import exc_name
 from ..consteval import UNKNOWN
 from ..framework import rule
-from ..guards import branch_outcome
+from ..guards import branch_outcome, in_try_with_handler
 from ..linexpr import atom_name, cmp_norm
 from ..wrap import WrapSpec, wrap_problems
 from .common import CD, DT, LX, SLC, ckey
@@ -93,9 +93,51 @@ def d15_1(ctx):
         lo_ok = all(rej[v] for v in points if v <= 0)
         hi_ok = all(rej[v] for v in points if v >= 65536) and all(not rej[v] for v in points if 1 <= v <= 65534)
     ctx.check(port_var is not None and lo_ok and hi_ok, ckey(fn, "port-range"), f, "ports <= 0 and > 65535 raise RequestError, 1..65534 are accepted (decided on the finite set of orderings around the constants)", f"TCP port guard rejects {facts}; ports <= 0 and > 65535 must raise RequestError", **facts)
-    colon = [n for n in walk(f) if isinstance(n, ast.Call) and isinstance(n.func, ast.Attribute) and n.func.attr == "split" and n.args and ctx.folder.eval(n.args[0], fn.module) == ":" and atom_name(n.func.value) == host]
+    # host:port split, decided on representatives of the colon-count classes of the host segment (one colon, several colons,
+    # empty sides): the splitting statement is folded on each witness, bound like Python binds it, and the port text goes
+    # through int(); a witness is accepted when nothing on that way fails.  Accepted hosts must be colon-free.
     none_else = any(isinstance(n, ast.Assign) and atom_name(n.targets[0]) == port_var and isinstance(n.value, ast.Constant) and n.value.value is None for n in walk(f))
-    ctx.check(len(colon) == 1 and none_else, ckey(fn, "port-split"), f, "host:port split on `:`; port None when absent", "host/port split changed")
+    split_st = [n for n in walk(f) if isinstance(n, ast.Assign) and host in {x.id for x in walk(n.value) if isinstance(x, ast.Name)} and any(isinstance(c, ast.Constant) and c.value == ":" for c in walk(n.value))
+                and port_var in {x.id for t in n.targets for x in walk(t) if isinstance(x, ast.Name)}]
+    verdicts, problems = {}, []
+    if len(split_st) == 1 and host is not None and port_var is not None:
+        st = split_st[0]
+        contained = in_try_with_handler(st, f, {"ValueError"}) is not None
+        for w in ("h:1", "h:1:2", "h::2", "h:1:", "1.2.3.4:44818", "1.2.3.4:4:4818"):
+            v = ctx.folder.eval(st.value, fn.module, env={host: w})
+            if v is UNKNOWN:
+                verdicts[w] = "undecided"
+                continue
+            env, tgt_ = {}, st.targets[0]
+            if isinstance(tgt_, ast.Tuple):
+                names = [atom_name(e) for e in tgt_.elts]
+                if any(isinstance(e, ast.Starred) for e in tgt_.elts) or not isinstance(v, (list, tuple)):
+                    verdicts[w] = "undecided"
+                    continue
+                if len(v) != len(names):
+                    verdicts[w] = "rejected (unpacking fails)" if contained else "unpacking fails outside any handler"
+                    continue
+                env = dict(zip(names, v))
+            else:
+                verdicts[w] = "undecided"
+                continue
+            h_, p_ = env.get(host), env.get(port_var)
+            try:
+                int(p_)
+            except (ValueError, TypeError):
+                verdicts[w] = "rejected (port text is not a number)"
+                continue
+            verdicts[w] = f"accepted host={h_!r} port={p_!r}"
+            if ":" in str(h_) or str(h_) != w.split(":")[0] or w.count(":") != 1:
+                problems.append(f"{w!r} -> host {h_!r}, port {p_!r}")
+        if "undecided" in verdicts.values():
+            ctx.undecided(ckey(fn, "port-split"), st, f"host/port split `{src(st)}` not evaluable on witnesses: {verdicts}")
+        else:
+            single_ok = verdicts.get("h:1", "").startswith("accepted") and verdicts.get("1.2.3.4:44818", "").startswith("accepted")
+            ctx.check(not problems and single_ok and none_else, ckey(fn, "port-split"), st, "one colon splits host and port; a segment with more colons is rejected; port None when absent",
+                      f"host/port split `{src(st)}` accepts malformed host segments: {problems or verdicts}" if problems or not single_ok else "the port is not None when the host segment has no colon", verdicts=verdicts)
+    else:
+        ctx.undecided(ckey(fn, "port-split"), f, f"host/port splitting statement not identified ({len(split_st)} candidates)")
     rets = [r for r in walk(f) if isinstance(r, ast.Return)]
     good = len(rets) == 1 and isinstance(rets[0].value, ast.Tuple) and [atom_name(x) for x in rets[0].value.elts][:2] == [host, port_var]
     calls = [c for c in walk(f) if isinstance(c, ast.Call) and call_name(c) == "parse_cip_route"]
